@@ -4,7 +4,7 @@
    UtfTextTrace (validation of char-infos recorded from the real gr_make_seg). *)
 EXTENDS UtfOps
 
-Scalars == {65, 127, 128, 2047, 2048, 55295, 57344, 65533, 65535, 65536, 1114111}
+Scalars == {65, 127, 128, 2047, 2048, 55295, 57344, 65279, 65533, 65535, 65536, 1114111}    \* (65279 = U+FEFF: a byte-order mark is a character like any other)
 
 \* ill-formed blobs per encoding (name -> units)
 Ill8  == [lonecont |-> <<128>>, overlong2 |-> <<192, 128>>, overlong3 |-> <<224, 128, 128>>, trunc3 |-> <<226, 130>>,
